@@ -73,8 +73,12 @@ class C03(Prop):
                 P1, P2 = I.gen_profiles(rng, kind, 8)
             vk = rng.choice(["borda", "rand", "ties", "zero", "distinct"])
             V1, V2 = I.gen_valuations(rng, P1, P2, vk)
-            yield dict(entry="Irving.scf", family=kind, P1=P1, P2=P2, V1=V1, V2=V2, with_profiles=(vk != "distinct" or i % 2 == 0), zi=bool(i % 2),
-                       dtype=rng.choice(["int64", "int64", "int32", "float"]), cpv=(len(P1) <= 6 and i % 3 == 0))
+            c = dict(entry="Irving.scf", family=kind, P1=P1, P2=P2, V1=V1, V2=V2, with_profiles=(vk != "distinct" or i % 2 == 0), zi=bool(i % 2),
+                     dtype=rng.choice(["int64", "int64", "int32", "float"]), cpv=(len(P1) <= 6 and i % 3 == 0))
+            if i % 4 == 2:       # history: the same Irving object solved an instance of another size first
+                Q1, Q2 = I.gen_profiles(rng, "rand", 5); W1, W2 = I.gen_valuations(rng, Q1, Q2, "rand")
+                c["prelude"] = dict(P1=Q1, P2=Q2, V1=W1, V2=W2); c["family"] = kind + "_history"
+            yield c
 
     def ordinal(self, case):
         """the ordinal profiles the rule works with (given, or induced by distinct valuations)"""
